@@ -451,8 +451,9 @@ class Optic:
         if isinstance(rays, PolarizedRays):
             rays.update_intensity(self.polarization_state)
 
-        # update ray intensity
-        self.surface_group.intensity[-1, :] = rays.i
+        # update ray intensity (surface_group.intensity builds a new array on
+        # every access: write to the record of the image surface itself)
+        self.image_surface.intensity = np.copy(np.atleast_1d(rays.i))
 
         return rays
 
@@ -484,8 +485,11 @@ class Optic:
         rays = self.ray_generator.generate_rays(Hx, Hy, Px, Py, wavelength)
         rays = self.surface_group.trace(rays)
 
-        # update intensity
-        self.surface_group.intensity[-1, :] = rays.i
+        if isinstance(rays, PolarizedRays):
+            rays.update_intensity(self.polarization_state)
+
+        # update intensity (see trace)
+        self.image_surface.intensity = np.copy(np.atleast_1d(rays.i))
 
         return rays
 
